@@ -25,14 +25,15 @@ VERIF = os.path.dirname(os.path.dirname(os.path.abspath(__file__)))
 REPO = os.environ.get("KV_REPO", "/repo")
 KIRA = os.path.join(REPO, "crates", "kira")
 HARNESS_DIR = os.path.join(VERIF, "harness")
-EVIDENCE_DIR = os.path.join(VERIF, "evidence")
-REPLAY_DIR = os.path.join(VERIF, "replays")
+EVIDENCE_DIR = os.environ.get("KV_EVIDENCE_DIR") or os.path.join(VERIF, "evidence")
+REPLAY_DIR = os.path.join(os.environ["KV_EVIDENCE_DIR"], "replays") if os.environ.get("KV_EVIDENCE_DIR") else os.path.join(VERIF, "replays")
 KNOWN = os.path.join(VERIF, "KNOWN_FINDINGS.txt")
 
 ENV = dict(os.environ)
 ENV["CARGO_NET_OFFLINE"] = "true"
 ENV.pop("RUSTUP_TOOLCHAIN", None)
 # hooks in /repo are guarded by --cfg kira_verif; cargo kani honours RUSTFLAGS
+ENV["KV_HARNESS_DIR"] = HARNESS_DIR
 ENV["RUSTFLAGS"] = (ENV.get("RUSTFLAGS", "") + " --cfg kira_verif").strip()
 
 KANI_BASE = ["cargo", "kani", "--no-default-features", "--lib", "-Z", "unstable-options", "-Z", "stubbing"]
@@ -283,6 +284,8 @@ def harness_cmd(h, playback=False):
 def run_harness(h, crate, logdir, tier):
     t0 = time.time()
     timeout = h.timeout or DEFAULT_TIMEOUT[tier]
+    if os.environ.get("KV_TIMEOUT"):
+        timeout = int(os.environ["KV_TIMEOUT"])
     log = os.path.join(logdir, h.name + ".log")
     rc, timed_out = run(harness_cmd(h), crate, log, timeout, MEM_LIMIT_KB)
     text = open(log, errors="replace").read()
